@@ -1,0 +1,134 @@
+//go:build verif
+
+// Machine-checked contracts for kcp-go (comment-only; compiled only with -tags verif and
+// contributing no declarations). Read by /verif/engine (kcpverif). Contracts are keyed by
+// function name and loops by their ordinal in source order, never by line.
+
+package kcp
+
+// ===================================================================================
+// ringbuffer.go — C20: the ring buffer is a FIFO queue
+// ===================================================================================
+//
+//@ pred (r *RingBuffer) wf() = len(r.elements) >= 1 && 0 <= r.head && r.head < len(r.elements)
+//@      && 0 <= r.tail && r.tail < len(r.elements)
+//@ spec (r *RingBuffer) c() int = len(r.elements)
+//@ spec (r *RingBuffer) rlen() int = r.head <= r.tail ? r.tail - r.head : r.tail - r.head + len(r.elements)
+//@ spec (r *RingBuffer) slot(i int) int = r.head + i < len(r.elements) ? r.head + i : r.head + i - len(r.elements)
+//@ spec (r *RingBuffer) at(i int) T = r.elements[r.slot(i)]
+//@ pred (r *RingBuffer) live(j int) = r.head <= r.tail ? (r.head <= j && j < r.tail) : (r.head <= j || j < r.tail)
+//@ pred (r *RingBuffer) clean() = forall j int :: 0 <= j && j < len(r.elements) && !r.live(j) ==> iszero(r.elements[j])
+//@ pred (r *RingBuffer) inv() = r.wf() && r.clean()
+//
+//@ func NewRingBuffer
+//@   ensures result != nil && fresh(result) && fresh(result.elements)
+//@   ensures result.inv() && result.rlen() == 0 && result.c() == max(size, 8)
+//@   ensures result.head == 0 && result.tail == 0
+//
+//@ func RingBuffer.Len pure
+//@   requires r.wf()
+//@   ensures result == r.rlen()
+//
+//@ func RingBuffer.IsEmpty pure
+//@   requires r.wf()
+//@   ensures result == (r.rlen() == 0)
+//
+//@ func RingBuffer.IsFull pure
+//@   requires r.wf()
+//@   ensures result == (r.rlen() == r.c() - 1)
+//
+//@ func RingBuffer.MaxLen pure
+//@   requires r.wf()
+//@   ensures result == r.c() - 1
+//
+//@ func RingBuffer.Pop
+//@   requires r.inv()
+//@   modifies r, r.elements[..]
+//@   ensures r.inv() && r.elements == old(r.elements)
+//@   ensures old(r.rlen()) == 0 ==> !result.1 && iszero(result.0) && r.rlen() == 0
+//@   ensures old(r.rlen()) > 0 ==> result.1 && result.0 == old(r.at(0)) && r.rlen() == old(r.rlen()) - 1
+//@   ensures forall i int :: 0 <= i && i < r.rlen() ==> r.at(i) == old(r.at(i+1))
+//
+//@ func RingBuffer.Peek pure
+//@   requires r.wf()
+//@   ensures r.rlen() == 0 ==> result.0 == nil && !result.1
+//@   ensures r.rlen() > 0 ==> result.1 && result.0 == &r.elements[r.head]
+//
+//@ func RingBuffer.grow
+//@   requires r.inv()
+//@   modifies r
+//@   ensures r.inv() && r.rlen() == old(r.rlen()) && r.head == 0 && r.tail == r.rlen()
+//@   ensures forall i int :: 0 <= i && i < r.rlen() ==> r.at(i) == old(r.at(i))
+//@   ensures fresh(r.elements) && r.c() > old(r.c())
+//@   ensures old(r.c()) < 8 ==> r.c() == 8
+//@   ensures old(r.c()) >= 8 && old(r.c()) < 1024 ==> r.c() == 2 * old(r.c())
+//@   ensures old(r.c()) >= 1024 ==> r.c() == old(r.c()) + (old(r.c()) + 9) / 10
+//
+//@ func RingBuffer.Push
+//@   requires r.inv()
+//@   modifies r, r.elements[..]
+//@   ensures r.inv() && r.rlen() == old(r.rlen()) + 1
+//@   ensures forall i int :: 0 <= i && i < old(r.rlen()) ==> r.at(i) == old(r.at(i))
+//@   ensures r.at(old(r.rlen())) == v
+//@   ensures r.elements == old(r.elements) || fresh(r.elements)
+//
+//@ func RingBuffer.Discard
+//@   requires r.inv() && n >= 0
+//@   modifies r, r.elements[..]
+//@   ensures r.inv() && result == min(n, old(r.rlen())) && r.rlen() == old(r.rlen()) - result
+//@   ensures forall i int :: 0 <= i && i < r.rlen() ==> r.at(i) == old(r.at(i + result))
+//@   ensures r.elements == old(r.elements)
+//
+//@ func RingBuffer.Clear
+//@   requires r.wf()
+//@   modifies r, r.elements[..]
+//@   ensures r.head == 0 && r.tail == 0 && r.elements == old(r.elements)
+//@   ensures old(r.clean()) ==> forall j int :: 0 <= j && j < r.c() ==> iszero(r.elements[j])
+//@   loop 1 invariant r.head <= i && i <= r.tail
+//@   loop 1 invariant forall j int :: r.head <= j && j < i ==> iszero(r.elements[j])
+//@   loop 1 invariant forall j int :: !(r.head <= j && j < i) ==> r.elements[j] == old(r.elements[j])
+//@   loop 2 invariant r.head <= i && i <= len(r.elements)
+//@   loop 2 invariant forall j int :: r.head <= j && j < i ==> iszero(r.elements[j])
+//@   loop 2 invariant forall j int :: !(r.head <= j && j < i) ==> r.elements[j] == old(r.elements[j])
+//@   loop 3 invariant 0 <= i && i <= r.tail
+//@   loop 3 invariant forall j int :: (r.head <= j && j < len(r.elements)) || (0 <= j && j < i) ==> iszero(r.elements[j])
+//@   loop 3 invariant forall j int :: !((r.head <= j && j < len(r.elements)) || (0 <= j && j < i)) ==> r.elements[j] == old(r.elements[j])
+//
+// Iterators. The callback is an arbitrary function: every call is logged in the ghost trace
+// (cb_n calls so far; cb_ref/cb_idx = the element it was handed; cb_ret = what it returned),
+// it may mutate the elements of the backing array and nothing else. The postcondition is
+// the iterator contract: elements at(0), at(1), ... in order, stop at the first false.
+//
+//@ func RingBuffer.ForEach iterator
+//@   itercount r.rlen()
+//@   iterelem r.elements[r.slot(_i)]
+//@   requires r.wf()
+//@   modifies r.elements[..]
+//@   ensures r.head == old(r.head) && r.tail == old(r.tail) && r.elements == old(r.elements)
+//@   ensures 0 <= cb_n && cb_n <= r.rlen()
+//@   ensures forall k int :: 0 <= k && k < cb_n ==> cb_ref(k) == ref(r.elements) && cb_idx(k) == off(r.elements) + r.slot(k)
+//@   ensures forall k int :: 0 <= k && k < cb_n - 1 ==> cb_ret(k)
+//@   ensures cb_n == r.rlen() || (cb_n > 0 && !cb_ret(cb_n - 1))
+//@   loop 1 invariant r.head <= i && i <= r.tail && cb_n == i - r.head
+//@   loop 1 invariant forall k int :: 0 <= k && k < cb_n ==> cb_ref(k) == ref(r.elements) && cb_idx(k) == off(r.elements) + r.head + k && cb_ret(k)
+//@   loop 2 invariant r.head <= i && i <= len(r.elements) && cb_n == i - r.head
+//@   loop 2 invariant forall k int :: 0 <= k && k < cb_n ==> cb_ref(k) == ref(r.elements) && cb_idx(k) == off(r.elements) + r.head + k && cb_ret(k)
+//@   loop 3 invariant 0 <= i && i <= r.tail && cb_n == len(r.elements) - r.head + i
+//@   loop 3 invariant forall k int :: 0 <= k && k < cb_n ==> cb_ref(k) == ref(r.elements) && cb_idx(k) == off(r.elements) + r.slot(k) && cb_ret(k)
+//
+//@ func RingBuffer.ForEachReverse iterator
+//@   itercount r.rlen()
+//@   iterelem r.elements[r.slot(r.rlen() - 1 - _i)]
+//@   requires r.wf()
+//@   modifies r.elements[..]
+//@   ensures r.head == old(r.head) && r.tail == old(r.tail) && r.elements == old(r.elements)
+//@   ensures 0 <= cb_n && cb_n <= r.rlen()
+//@   ensures forall k int :: 0 <= k && k < cb_n ==> cb_ref(k) == ref(r.elements) && cb_idx(k) == off(r.elements) + r.slot(r.rlen() - 1 - k)
+//@   ensures forall k int :: 0 <= k && k < cb_n - 1 ==> cb_ret(k)
+//@   ensures cb_n == r.rlen() || (cb_n > 0 && !cb_ret(cb_n - 1))
+//@   loop 1 invariant r.head - 1 <= i && i <= r.tail - 1 && cb_n == r.tail - 1 - i
+//@   loop 1 invariant forall k int :: 0 <= k && k < cb_n ==> cb_ref(k) == ref(r.elements) && cb_idx(k) == off(r.elements) + r.tail - 1 - k && cb_ret(k)
+//@   loop 2 invariant 0 - 1 <= i && i <= r.tail - 1 && cb_n == r.tail - 1 - i
+//@   loop 2 invariant forall k int :: 0 <= k && k < cb_n ==> cb_ref(k) == ref(r.elements) && cb_idx(k) == off(r.elements) + r.tail - 1 - k && cb_ret(k)
+//@   loop 3 invariant r.head - 1 <= i && i <= len(r.elements) - 1 && cb_n == r.tail + len(r.elements) - 1 - i
+//@   loop 3 invariant forall k int :: 0 <= k && k < cb_n ==> cb_ref(k) == ref(r.elements) && cb_idx(k) == off(r.elements) + r.slot(r.rlen() - 1 - k) && cb_ret(k)
